@@ -378,17 +378,38 @@ class YieldInjector:
 
 # ------------------------------------------------------------------------------------------------ quiescence
 def transport_depths(real):
-    """{"cfg": n, "status": n, "other": n} from the transport's real queues, or None when they cannot be seen."""
-    qs = getattr(real, "_queues", None)
-    if not isinstance(qs, dict):
-        return None
+    """{"cfg": n, "status": n, "other": n} from the transport's real queues, or None when they cannot be seen.
+
+    The channel table is found STRUCTURALLY (any dict held by the transport whose values are, or contain as tuple
+    members / attributes, a deque), so renaming a private attribute of the transport cannot blind the quiescence check."""
+    import collections
+
     out = {"cfg": 0, "status": 0, "other": 0}
+    seen_table = False
     try:
-        for ch, ent in list(qs.items()):
-            n = len(ent[0])
-            _, kind = channel_parts(ch)
-            out[kind if kind in ("cfg", "status") else "other"] += n
+        for v in list(vars(real).values()):
+            if not isinstance(v, dict):
+                continue
+            for ch, ent in list(v.items()):
+                if isinstance(ent, collections.deque):
+                    dq = ent
+                else:
+                    parts = list(ent) if isinstance(ent, (tuple, list)) else list(vars(ent).values()) if hasattr(ent, "__dict__") else []
+                    dq = next((x for x in parts if isinstance(x, collections.deque)), None)
+                if dq is None or not isinstance(ch, str):
+                    continue
+                seen_table = True
+                _, kind = channel_parts(ch)
+                out[kind if kind in ("cfg", "status") else "other"] += len(dq)
+            if not v and not seen_table:
+                seen_table = seen_table or False
     except Exception:
+        return None
+    if not seen_table:
+        # no channel exists yet (nothing was ever published): an empty table is a visible, empty transport as long as the
+        # transport holds at least one dict that could be the table
+        if any(isinstance(v, dict) and not v for v in vars(real).values()):
+            return out
         return None
     return out
 
